@@ -45,10 +45,14 @@ func registerMisc(vm *VM) {
 		if !isPtr {
 			vmErr("json.Unmarshal into a non-pointer")
 		}
-		if blob.T == nil || !types.Identical(pt.Elem(), blob.T) {
-			vmErr("json.Unmarshal: value-carrying stub needs identical types (have %v, want %v)", blob.T, pt.Elem())
+		if blob.T == nil {
+			vmErr("json.Unmarshal: document of unknown type")
 		}
-		vm.store(target.V.(*Value), copyVal(blob.V))
+		tp, _ := target.V.(*Value)
+		if tp == nil {
+			vmErr("json.Unmarshal into a nil pointer")
+		}
+		vm.jsonDecodeInto(tp, pt.Elem(), blob.V, blob.T)
 		return Iface{}
 	}
 	I["regexp.MustCompile"] = func(vm *VM, _ *frame, a []Value) Value {
